@@ -132,6 +132,37 @@ def line_of(hdr, ops):
     return " ".join(hdr + [t for o in ops for t in o])
 
 
+
+FRAME_BND = [0, 1, 11, 12, 13, 14, 267, 268, 269, 270, 65803, 65804, 65805, 65806, 65807]
+
+
+def gen_framelen_case(r, target=None, proto=None):
+    """a build case whose options+marker+payload length is exactly a boundary of the RFC 8323
+    Len forms (0..12 | 13..268 | 269..65804 | 65805..): the four length-header forms of TCP/TLS"""
+    target = r.choice(FRAME_BND) if target is None else target
+    proto = proto or r.choice(["tcp", "tcp", "tcp", "ws", "udp"])
+    tl = r.choice([0, 1, 8, 12, 13, 268, 269])
+    opts = []
+    body = 0
+    prev = 0
+    for n in sorted(r.sample([3, 8, 11, 15, 20, 2048, 65000], r.choice([0, 1, 2, 3]))):
+        ln = r.choice([0, 1, 12, 13])
+        sz = len(py_opt(n - prev, bytes(ln)))
+        if body + sz > target:
+            break
+        opts.append(["O", str(n), btok(r, ln)])
+        body += sz
+        prev = n
+    rest = target - body
+    ops = [["T", btok(r, tl)]] + opts
+    if rest >= 2:
+        ops.append(["D", btok(r, rest - 1)])
+    elif rest == 1 and not opts:
+        ops.append(["O", "0", "-"])
+    code = r.choice([1, 2, 69, 68])
+    hdr = ["c01", proto, str(r.randrange(4)), str(code), str(r.randrange(65536)), "0"]
+    return hdr, ops
+
 # ---------------------------------------------------------------- byte strings for C03 / C02
 
 def py_ext(x):
